@@ -4,7 +4,7 @@ CONSTANTS
   NLog = 2
   MaxSeq = 2
   Caps = {1, 2, 3, 99}
-  StoreChoices <- AllIntervals
+  StoreChoices <- TwoLogs
   LogsChoices <- LogsAll
   MaxMut = 0
   MutKinds = {}
